@@ -162,6 +162,14 @@ def signature(r):
 
 
 def run(chk):
+    _run_fork(chk)
+    if not chk.violations:
+        # work-queue pause / resume / create_worker (the hash table's atfork hooks): own model + theorems + tie (props/wq.py)
+        from props import wq
+        wq.part(chk)
+
+
+def _run_fork(chk):
     chk.assumptions = TRUSTED
     chk.cov["trusted_base"] = TRUSTED
     proved = chk.proof_part(["UrcuVerif.Props.C16", "drv_fork"], "UrcuVerif.Props.C16", THEOREMS,
@@ -282,6 +290,9 @@ def run(chk):
 
 
 def replay(rp):
+    if rp.get("scenario") == "wq":
+        from props import wq
+        return wq.replay(rp)
     ok, log = build()
     if not ok:
         print(log)
